@@ -167,19 +167,20 @@ def parse_prefix(text: str, start: int = 0):
 
 def find_tuples(text: str, tag: str):
     """All top-level tuples <<"tag", ...>> in a TLC output (bracket matching, may span lines)."""
-    needle = '<<"' + tag + '"'
+    import re
+    pat = re.compile(r'<<\s*"' + re.escape(tag) + '"')
     out = []
     i = 0
     while True:
-        j = text.find(needle, i)
-        if j < 0:
+        m = pat.search(text, i)
+        if not m:
             return out
         try:
-            v, end = parse_prefix(text, j)
+            v, end = parse_prefix(text, m.start())
             out.append(v)
             i = end
         except (ParseError, IndexError):
-            i = j + len(needle)
+            i = m.end()
 
 
 def parse_state_conj(text: str):
